@@ -273,11 +273,16 @@ Merge(a, b) == [attrs |-> InsertAll(b.attrs, a.attrs, DOMAIN a.attrs),
 (* OTEL_RESOURCE_ATTRIBUTES as a token list.  Token kinds:
      kv       "k=v"                 noeq   "junk" (no '=')        empty  "" (",," / trailing ',')
      emptykey "=v"                  padkv  " k = v " (blanks)     valeq  "k=a=b"     emptyval "k="
-   Pinned by the statement: a list of well-formed tokens yields exactly its pairs.  Left open (the
-   statement is silent; the OTel specification and the code differ): which occurrence of a repeated
-   key wins; whether a malformed token is skipped, kept in the most literal reading (split at the
-   first '=', no trimming), or makes the whole variable count as unset.  Never allowed: a pair that
-   no token denotes. *)
+   Pinned by the statement ("key=value lists ... return the exact value"): every member key=value with a
+   non-empty key yields exactly that pair, the value being all the rest of the member - including the empty value ("k=", kind emptyval or kv with value s_empty) and values /
+   keys that contain LF, CR, TAB, control, non-ASCII or invalid-UTF-8 bytes or spaces INSIDE (values and
+   keys are opaque names here; the harness table maps s_lf, s_cr, s_tab, s_ctl, s_utf, s_bin, s_sp, ~k_lf,
+   ~k_tab, ... to such texts), in any position of the list.  Left open (the statement is silent; the OTel
+   specification and the code differ): which occurrence of a repeated key wins; blanks at the EDGES of a
+   key or value (padkv: kept literally, trimmed, or skipped); a value that itself contains '=' (valeq:
+   split at the first '=', or skipped); members without '=' / with an empty key / empty members (skipped,
+   kept in the most literal reading, or the whole variable counts as unset).  Never allowed: a pair that
+   no member denotes (hence no truncated or partial value). *)
 Tok(t, k, v) == [t |-> t, k |-> k, v |-> v, rawk |-> "~rawk", rawv |-> "~rawv"]
 Contrib(tk) ==
   CASE tk.t = "kv"       -> {(tk.k :> tk.v)}
@@ -286,14 +291,15 @@ Contrib(tk) ==
     [] tk.t = "emptykey" -> {<<>>, ("" :> tk.v)}
     [] tk.t = "padkv"    -> {<<>>, (tk.k :> tk.v), (tk.rawk :> tk.rawv)}
     [] tk.t = "valeq"    -> {<<>>, (tk.k :> tk.rawv)}
-    [] tk.t = "emptyval" -> {<<>>, (tk.k :> "s_empty")}
+    [] tk.t = "emptyval" -> {(tk.k :> "s_empty")}          \* "k=" IS key=value: the value is the empty string
 RECURSIVE ListAlts(_)
 ListAlts(ts) ==
   IF ts = <<>> THEN {<<>>}
   ELSE LET rest == ListAlts(SubSeq(ts, 1, Len(ts) - 1))
            c    == Contrib(ts[Len(ts)])
        IN {Over(m, x) : m \in rest, x \in c} \cup {Over(x, m) : m \in rest, x \in c}
-Malformed(ts) == \E i \in 1..Len(ts) : ts[i].t # "kv"
+Malformed(ts) == \E i \in 1..Len(ts) : ts[i].t \notin {"kv", "emptyval"}
+TokVal(tk) == IF tk.t = "emptyval" THEN "s_empty" ELSE tk.v
 \* svc = [c |-> "unset" | "empty" | "set", v |-> value]
 EnvAlts(ts, svc) ==
   LET lists == ListAlts(ts) \cup (IF Malformed(ts) THEN {<<>>} ELSE {})
@@ -335,7 +341,7 @@ NormTok(tk) == IF tk.t \in {"noeq", "empty"} THEN Tok(tk.t, "-", "-")
 Toks == {NormTok(tk) : tk \in TokSet}
 TokLists == UNION {[1..n -> Toks] : n \in 0..MaxTok}
 Svcs == {[c |-> c, v |-> "-"] : c \in SvcKinds \cap {"unset", "empty"}}
-        \cup (IF "set" \in SvcKinds THEN {[c |-> "set", v |-> v] : v \in SVals} ELSE {})
+        \cup (IF "set" \in SvcKinds THEN {[c |-> "set", v |-> v] : v \in SVals \ {"s_empty"}} ELSE {})
 
 (* ======================= 3. the process machine ======================== *)
 VARIABLES env,      \* [toks, svc]: the environment the process was started with
@@ -487,7 +493,7 @@ WitCreateThrows == Mode = "envs" => \A e \in CaseAlts : ~CreateModel(Dev, e, las
 WellFormed(ts) == ~Malformed(ts) /\ \A i, j \in 1..Len(ts) : i # j => ts[i].k # ts[j].k
 EnvExact == Mode = "envs" => (WellFormed(last.toks) /\ last.svc.c = "unset" =>
    CaseAlts = {[k \in {last.toks[i].k : i \in 1..Len(last.toks)} |->
-                  last.toks[CHOOSE i \in 1..Len(last.toks) : last.toks[i].k = k].v]})
+                  TokVal(last.toks[CHOOSE i \in 1..Len(last.toks) : last.toks[i].k = k])]})
 \* no reading contains a pair that no token (or OTEL_SERVICE_NAME) denotes
 Denoted(ts, svc) == UNION {UNION {{<<k, x[k]>> : k \in DOMAIN x} : x \in Contrib(ts[i])} : i \in 1..Len(ts)}
                     \cup (IF svc.c = "set" THEN {<<SvcKey, svc.v>>} ELSE IF svc.c = "empty" THEN {<<SvcKey, "s_empty">>} ELSE {})
